@@ -104,12 +104,19 @@ namespace c02
     bool need_entries;                    // documented precondition (XASSERT): source must hold entries
     std::function<P(const AnyM&, int)> fn;  // (source, variant)
   };
+  // cross-type clone: target<DT,IT>.clone(source<DT2,IT2>, mode) (Container::clone template)
+  struct XClone
+  {
+    Key from, to;
+    std::function<P(const AnyM&, int, int)> fn;   // (source, clone mode, variant: 0 default-constructed / 1 non-empty target)
+  };
   typedef std::function<P(vh::Rng&, const vl::MatSpec&, Truth&, std::vector<std::string>&)> Maker;
   struct Registry
   {
     std::map<int, Key> keys;
     std::map<int, Maker> makers;
     std::vector<Conv> convs;
+    std::vector<XClone> xclones;
   };
   Registry& reg(); // defined in chain.cpp
 
